@@ -4,7 +4,7 @@
 # (run seed, event-log hash, steps, verdict) lines must be identical.
 # Then 30 processes on one seed. Any difference is a harness bug: exit 2.
 set -u
-SIMRUN="$1"; PROPS="${2:-C01 C02 C03 C04 C05 C08 C13 C14 C15 C17 C18 C19}"
+SIMRUN="$1"; PROPS="${2:-C01 C02 C03 C04 C05 C08 C11 C13 C14 C15 C17 C18 C19}"
 N="${VERIF_DET_RUNS:-200}"
 fail=0
 tmp="$(mktemp -d)"; trap 'rm -rf "$tmp"' EXIT
